@@ -13,7 +13,9 @@ SPEC = dict(
          "(1/8, forces optimizer exceptions and worse results); a dedicated class (1/12) loop + prescribed-off + wrong-sign "
          "gradient started feasible, which reaches the revert branch after prescribeQ; infinity or RMS error norm; tolerance "
          "1e-4..1e-8), 10% ObservedPointFitter and 20% LocalEnergyMinimizer, each 40% with a loop constraint and 30% with a "
-         "mobilizer locked in the State; one all-NaN-observations case per run; each case in a forked child with a time "
+         "mobilizer locked in the State; every fifth case a coordinate-bounds case (restrictQ on 0/1/2/3+ mobilized bodies x all free / "
+         "bounded q locked / bounded mobilizer locked / unrestrictQ x target inside / outside the lowest / middle / highest box, bound "
+         "active at the solution, assemble() then track()), class = function of (seed, index); one all-NaN-observations case per run; each case in a forked child with a time "
          "limit; every record carries (seed, case index) and --mode replay re-runs the implementation; distinct = distinct records",
     partial="(i) proved about simbody's own code, executed by the driver and tied bit-exactly: the success / failure / revert / "
             "short-circuit logic of assemble() and track() (assemble_ok_cases: complete case analysis; "
